@@ -250,7 +250,7 @@ pub type CaseResult = Result<(), Fail>;
 // ---------------------------------------------------------------------------
 
 const MAX_SAMPLES: usize = 6;
-const MAX_SET: usize = 3_000_000;
+const MAX_SET: usize = 4_000_000;
 
 #[derive(Default, Debug)]
 pub struct Stats {
@@ -636,6 +636,12 @@ impl Ctx {
             self.stats.distinct_nontrivial().into(),
         );
         coverage.insert("rule".into(), self.rule.clone().into());
+        if self.stats.nontrivial_set.len() >= MAX_SET {
+            coverage.insert(
+                "distinct_nontrivial_note".into(),
+                format!("the hash set of non-trivial case digests is capped at {MAX_SET} entries: distinct_nontrivial is a lower bound (counted conservatively)").into(),
+            );
+        }
         coverage.insert("samples".into(), Value::Array(self.stats.samples.clone()));
         coverage.insert("labels".into(), json!(self.stats.labels));
         coverage.insert("known_hits".into(), json!(self.stats.known_hits));
